@@ -22,6 +22,47 @@ fn check(id: &str, tier: Tier) -> i32 {
             let n = ctx.runs(200_000, 20_000_000);
             run_check(&props::c13::C13, &ctx, &[("histories", n)], |_, _| Vec::new()).exit
         }
+        "C12" => {
+            let n = ctx.runs(3_000, 200_000);
+            let np = match tier { Tier::Quick => 300usize, Tier::Thorough => 3000 };
+            let seed = ctx.seed;
+            run_check(&props::c12::C12, &ctx, &[("scenarios", n)], move |cov, _assume| {
+                // (d) process restarts: same seeds in fresh processes, ASLR on, heap shifted
+                let exe = std::env::current_exe().unwrap_or_default();
+                let mut outs: Vec<String> = Vec::new();
+                let procs = match tier { Tier::Quick => 2, Tier::Thorough => 4 };
+                for p in 0..procs {
+                    let o = std::process::Command::new(&exe)
+                        .args(["c12-worker", &seed.to_string(), &np.to_string()])
+                        .env("TSIM_PREALLOC", format!("{}", p * 7_340_033))
+                        .output();
+                    match o {
+                        Ok(o) if o.status.success() => outs.push(String::from_utf8_lossy(&o.stdout).to_string()),
+                        _ => outs.push(format!("worker {} failed", p)),
+                    }
+                }
+                let mut fails = Vec::new();
+                let lines0: Vec<&str> = outs[0].lines().collect();
+                let mut compared = 0u64;
+                for (p, o) in outs.iter().enumerate().skip(1) {
+                    for (a, b) in lines0.iter().zip(o.lines()) {
+                        compared += 1;
+                        if *a != b && fails.is_empty() {
+                            fails.push((
+                                framework::Failure::new("trace_hash_differs_across_processes", format!("{} vs {}", a, b),
+                                    serde_json::json!({"process": p, "line_process0": a, "line_other": b})),
+                                serde_json::json!({"process_restart_seed_index": a.split(' ').next().unwrap_or("")}),
+                            ));
+                        }
+                    }
+                    if lines0.len() != o.lines().count() && fails.is_empty() {
+                        fails.push((framework::Failure::new("worker_output_length_differs", format!("{} vs {}", lines0.len(), o.lines().count()), serde_json::json!({"process": p})), serde_json::json!({})));
+                    }
+                }
+                cov.insert("process_restart".into(), serde_json::json!({"processes": procs, "seeds_per_process": np, "hash_comparisons": compared, "aslr": std::fs::read_to_string("/proc/sys/kernel/randomize_va_space").unwrap_or_default().trim()}));
+                fails
+            }).exit
+        }
         "C14" => {
             let n = ctx.runs(4_000, 200_000);
             run_check(&props::c14::C14, &ctx, &[("programs", n)], |_, _| Vec::new()).exit
@@ -67,6 +108,7 @@ fn replay(path: &Path) -> i32 {
         "C07" => replay_main(&props::c07::C07, path),
         "C11" => replay_main(&props::c11::C11, path),
         "C14" => replay_main(&props::c14::C14, path),
+        "C12" => replay_main(&props::c12::C12, path),
         _ => {
             eprintln!("HARNESS-ERROR: replay file names unknown property {:?}", prop);
             2
@@ -142,6 +184,12 @@ fn main() {
             };
             let rf = framework::ReplayFile { property: id.clone(), clause: "dump".into(), observed: String::new(), seed: ctx.seed, run: idx, scenario: v.unwrap_or_default(), detail: Default::default(), minimised_steps: 0 };
             println!("{}", serde_json::to_string_pretty(&rf).unwrap_or_default());
+            0
+        }
+        Some("c12-worker") => {
+            let seed: u64 = args.get(2).and_then(|s| s.parse().ok()).unwrap_or(1);
+            let n: usize = args.get(3).and_then(|s| s.parse().ok()).unwrap_or(10);
+            props::c12::worker(seed, n);
             0
         }
         Some("replay") => {
